@@ -22,7 +22,7 @@ MANIFEST = {
     'note': 'Relational oracle against single-target executions; trusts the block splitter (80-dash rule) and json.loads.',
     'technique': 'fault injection into multi-target runs with boundary monitoring (block structure, status rank) and a relational oracle against single-target executions',
 }
-FAILS = ['unresolvable', 'refused', 'silent', 'early-close', 'close-before-banner', 'garbage-banner', 'bad-block-size', 'bad-crc', 'truncated-kexinit', 'wrong-first-packet', 'probe-garbage', 'probe-wrong-type', 'probe-malformed-reply']
+FAILS = ['badname', 'unresolvable', 'refused', 'silent', 'early-close', 'close-before-banner', 'garbage-banner', 'bad-block-size', 'bad-crc', 'truncated-kexinit', 'wrong-first-packet', 'probe-garbage', 'probe-wrong-type', 'probe-malformed-reply']
 HEALTHY3 = ['clean', 'terrapin', 'rsa1024']
 RANK = {0: 0, 2: 1, 3: 2, 1: 3, 255: 4}
 _fail_status = {}
@@ -60,6 +60,11 @@ def cases(tier, seed):
         cs.append({'targets': list(perm), 'threads': 1, 'fmt': 'text', 'rank': True})
     for perm in itertools.permutations(['!early-close', 'warn-only', 'terrapin'], 3):
         cs.append({'targets': list(perm), 'threads': 1, 'fmt': 'text', 'rank': True})
+    # an internal error (status 255) outranks everything, wherever it completes
+    for perm in itertools.permutations(['!badname', '!refused', 'warn-only'], 3):
+        cs.append({'targets': list(perm), 'threads': 1, 'fmt': 'text', 'rank': True})
+    for pair in (['!badname', 'good-only'], ['good-only', '!badname'], ['!badname']):
+        cs.append({'targets': pair, 'threads': 2, 'fmt': 'text', 'rank': True})
     return cs
 
 
@@ -71,7 +76,7 @@ def make_target(name):
     if not name.startswith('!'):
         return multi.Target(name, multi.healthy(name))
     f = name[1:]
-    if f in ('unresolvable', 'refused'):
+    if f in ('unresolvable', 'refused', 'badname'):
         return multi.Target(f, kind=f)
     return multi.Target(f, multi.failing(f))
 
@@ -107,7 +112,7 @@ def run_case(c):
             if n.startswith('!'):
                 if t.kind == 'peer' and (t.peer.count('fault') > 0 or t.peer.count('accept') > 0):
                     reached += 1
-                elif t.kind in ('refused', 'unresolvable'):
+                elif t.kind in ('refused', 'unresolvable', 'badname'):
                     reached += 1
         counters['failure_reached'] = reached
         tag = '+'.join(sorted(fails)) or 'none'
@@ -141,6 +146,15 @@ def run_case(c):
                     except ValueError:
                         only_error_text = False
                 mech = 'error-text-of-failed-target-in-array' if only_error_text else 'other:' + tag
+                if not only_error_text and 'An exception occurred while scanning' in r.out:
+                    # the worker's last-resort handler returns "An exception occurred while scanning <target>:\n<traceback>" as that target's output: is that text the only thing that breaks the array?
+                    stripped2 = _re.sub(r'An exception occurred while scanning [^\n]*:\nTraceback \(most recent call last\):\n(?:[ \t][^\n]*\n|[^\n{\[\]]*\n)*?(?=\s*(?:, |\]|\{))', 'null', r.out)
+                    try:
+                        arr = json.loads(stripped2)
+                        if isinstance(arr, list):
+                            mech, only_error_text = 'worker-exception-text-in-array', True
+                    except ValueError:
+                        pass
                 viol.append(_v('C08/json-not-one-array:%s' % mech, 'stdout of a multi-target -j run is not a single JSON array', err=res.get('json_error'), out=r.out[:200] + ' ... ' + r.out[-300:]))
                 if only_error_text and len(arr) != len(names):
                     viol.append(_v('C08/block-count:json:%s' % tag, 'number of array elements (error texts counted) differs from the number of targets', got=len(arr), want=len(names)))
